@@ -30,7 +30,12 @@ func verifH_C04_hist() {
 	rs, db := verifPrefixDB(sc, 0, verifParam("warm", 0) == 1)
 	hist := ""
 	for i := 0; i < d; i++ {
-		st := verifFreeStmt(db, fmt.Sprintf("s%d", i), slen, kinds)
+		var st verifStmt
+		if k := verifScriptKind(verifParam("script", 0), d, i); k >= 0 {
+			st = verifStmtOfKind(db, fmt.Sprintf("s%d", i), slen, k)
+		} else {
+			st = verifFreeStmt(db, fmt.Sprintf("s%d", i), slen, kinds)
+		}
 		hist += st.kind + ","
 		verifAssert(st.run(rs) == nil, "statement-ok")
 		st.apply(db)
